@@ -8,5 +8,5 @@ CONSTANTS
   Locked = FALSE
   Export = FALSE
 VIEW View
-INVARIANTS TypeOK NoStranded NoLossNoDup PerWriterOrder Bounded
+INVARIANTS TypeOK NoStranded NoSpuriousClose NoLossNoDup PerWriterOrder Bounded
 PROPERTY HeldInConfig
